@@ -234,6 +234,50 @@ class Judge(object):
                               'both readers accept %r but disagree: %s: %s' % (text[:200], d[0], d[2]), {'text': D._enc_s(text)})
         return outcome
 
+    def feed_bytes(self, data, how, charset='utf-8'):
+        """The same document as bytes: the decoded text decides; undecodable bytes may only give a ValueError-family
+        error (UnicodeDecodeError is one)."""
+        ctx, hszinc = self.ctx, self.hszinc
+        ctx.case('bytes', charset, data.hex())
+        ctx.count('byte inputs')
+        try:
+            text = data.decode(charset)
+        except UnicodeDecodeError:
+            text = None
+        try:
+            hszinc.parse(data, mode=hs.ZINC, charset=charset, single=False)
+            out = 'parsed'
+        except self.ZPE:
+            out = 'rejected'
+        except UnicodeDecodeError:
+            out = 'undecodable'
+        except BaseException as e:   # noqa
+            out = 'crash'
+            ctx.violation({'part': 'mutation', 'format': 'zinc', 'kind': 'exception-type', 'symptom': 'escaped:' + type(e).__name__,
+                           'features': ['how=' + how, 'input=bytes']},
+                          'parse(bytes) let %s escape: %s | input %r' % (type(e).__name__, str(e)[:120], data[:200]),
+                          {'bytes': data.hex(), 'charset': charset})
+        ctx.count('byte outcome: ' + out)
+        if out == 'crash':
+            return
+        if text is None:
+            if out != 'undecodable':
+                ctx.violation({'part': 'mutation', 'format': 'zinc', 'kind': 'bytes', 'symptom': 'undecodable-bytes-' + out,
+                               'features': ['how=' + how]}, 'bytes that are not %s were %s: %r' % (charset, out, data[:120]),
+                              {'bytes': data.hex(), 'charset': charset})
+            return
+        try:
+            hszinc.parse(text, mode=hs.ZINC, single=False)
+            ref = 'parsed'
+        except self.ZPE:
+            ref = 'rejected'
+        except BaseException:   # noqa - reported by feed() on the text route
+            return
+        if ref != out:
+            ctx.violation({'part': 'mutation', 'format': 'zinc', 'kind': 'bytes', 'symptom': 'bytes-vs-text:' + out + '-vs-' + ref,
+                           'features': ['how=' + how]}, 'as bytes (%s) %s, as text %s: %r' % (charset, out, ref, text[:160]),
+                          {'bytes': data.hex(), 'charset': charset})
+
     def must_reject(self, text, category):
         ctx, hszinc = self.ctx, self.hszinc
         try:
@@ -374,6 +418,21 @@ def run_shard(spec, ctx):
                         q = r.randrange(len(t) + 1)
                         t = t[:p] + t[min(p, q):max(p, q)] + t[p:]
                 J.feed(t, 'double')
+            # the same document as bytes, mutated at byte level (also in the middle of multi-byte characters)
+            for charset in ('utf-8', 'utf-16', 'latin-1'):
+                try:
+                    data = text.encode(charset)
+                except UnicodeEncodeError:
+                    continue
+                J.feed_bytes(data, 'unmutated', charset)
+                for pos in range(len(data) + 1):
+                    if pos % parts != part:
+                        continue
+                    if pos < len(data):
+                        J.feed_bytes(data[:pos] + data[pos + 1:], 'delete', charset)
+                        J.feed_bytes(data[:pos], 'truncate', charset)
+                    for b in (b'\xff', b'\x80', b'\xc3', b'\x00', b'\xe2\x82', b'\xed\xa0\x80'):
+                        J.feed_bytes(data[:pos] + b + data[pos:], 'insert', charset)
             if di == i % len(docs):
                 ctx.sample({'corpus_document': text, 'mutations': 'delete/insert/replace at every offset, truncate, splice, random pairs'})
         ctx.count('max steps seen', 0)
@@ -479,6 +538,11 @@ def scalar_part(ctx, hszinc, spec):
 
 
 def replay(case, ctx):
+    if 'bytes' in case:
+        import hszinc
+        meter_on()
+        Judge(ctx, hszinc).feed_bytes(bytes.fromhex(case['bytes']), 'replay', case.get('charset', 'utf-8'))
+        return
     import hszinc
     meter_on()
     if 'scalar' in case:
